@@ -10,21 +10,9 @@ import Gen.PyEnums
 namespace CR.C03
 open CR.Xsd
 
-/-- traffic-sign members whose value the 2020a XSD does not list (besides every `UNKNOWN`, whose value is "") -/
-def signNotExpressible : List (String × String) :=
-  [("TrafficSignIDArgentina", "MAX_SPEED"), ("TrafficSignIDAustralia", "STOP"), ("TrafficSignIDAustralia", "YIELD"),
-   ("TrafficSignIDBelgium", "MAX_SPEED"), ("TrafficSignIDCroatia", "MAX_SPEED"), ("TrafficSignIDFrance", "MAX_SPEED"),
-   ("TrafficSignIDGreece", "MAX_SPEED"), ("TrafficSignIDRussia", "MAX_SPEED"), ("TrafficSignIDUsa", "STOP"),
-   ("TrafficSignIDUsa", "STOP_4_WAY"), ("TrafficSignIDUsa", "NO_TURN_ON_RED"), ("TrafficSignIDUsa", "ONEWAY"),
-   ("TrafficSignIDGermany", "KEEP_STRAIGHT_AHEAD"), ("TrafficSignIDGermany", "LANE_BOARD_3_LANES_NO_OPPOSITE_WITH_SIGNS"),
-   ("TrafficSignIDGermany", "ADDITION_SCHOOL"), ("TrafficSignIDGermany", "ADDITION_KINDERGARTEN"),
-   ("TrafficSignIDGermany", "ADDITION_RETIREMENT_HOME"), ("TrafficSignIDGermany", "ADDITION_HOSPITAL"),
-   ("TrafficSignIDZamunda", "KEEP_STRAIGHT_AHEAD"), ("TrafficSignIDZamunda", "LANE_BOARD_3_LANES_NO_OPPOSITE_WITH_SIGNS"),
-   ("TrafficSignIDZamunda", "ADDITION_SCHOOL"), ("TrafficSignIDZamunda", "ADDITION_KINDERGARTEN"),
-   ("TrafficSignIDZamunda", "ADDITION_RETIREMENT_HOME"), ("TrafficSignIDZamunda", "ADDITION_HOSPITAL")]
-
+/-- the schema accepts the member's value exactly if it is neither `UNKNOWN` nor listed as not expressible -/
 def signOk (x : String × String × String) : Bool :=
-  acceptsV "trafficSignID" x.2.2 || x.2.1 == "UNKNOWN" || signNotExpressible.contains (x.1, x.2.1)
+  acceptsV "trafficSignID" x.2.2 == !(x.2.1 == "UNKNOWN" || signNotExpressible.contains (x.1, x.2.1))
 
 /-- the German table and its Zamunda copy -/
 def gerSigns : List (String × String) := (CR.Py.Gen.trafficSignId.filter (fun x => x.1 == "TrafficSignIDGermany")).map (·.2)
@@ -36,7 +24,7 @@ def gerExcl : List String :=
   ["KEEP_STRAIGHT_AHEAD", "LANE_BOARD_3_LANES_NO_OPPOSITE_WITH_SIGNS", "ADDITION_SCHOOL", "ADDITION_KINDERGARTEN",
    "ADDITION_RETIREMENT_HOME", "ADDITION_HOSPITAL"]
 
-/-- (member name, value) of the German / Zamunda table is fine -/
-def okNV (p : String × String) : Bool := acceptsV "trafficSignID" p.2 || p.1 == "UNKNOWN" || gerExcl.contains p.1
+/-- (member name, value) of the German / Zamunda table: accepted exactly if not `UNKNOWN` and not one of the six -/
+def okNV (p : String × String) : Bool := acceptsV "trafficSignID" p.2 == !(p.1 == "UNKNOWN" || gerExcl.contains p.1)
 
 end CR.C03
